@@ -1,4 +1,4 @@
 SPECIFICATION Spec
-INVARIANT SafeReferential
+INVARIANTS SafeReferential UsageExact
 CONSTRAINT Emit
 CHECK_DEADLOCK FALSE
